@@ -138,6 +138,28 @@ def _instances(res, rng, n):
     res.count("instances", len(cases))
 
 
+def _manager_pacing(res, rng, n):
+    """the running manager (virtual-time loop): runs of failed attempts - the factory fails with a different exception class
+    per attempt, OSError family and not - interleaved with successes and losses; after the n-th consecutive failure the next
+    attempt comes no sooner than min(2^(n-1), max_delay) s and no later than the larger of that and the breaker sleep"""
+    from props import c17
+    import vloop
+    for _ in range(n):
+        script = []
+        for _ in range(rng.choice([1, 2, 3])):
+            script += [("fail", rng.choice([0, 0, 1]), None)] * rng.choice([1, 2, 3, 5, 8])
+            script.append(("ok", rng.choice([0, 1]), rng.choice([1, 7, 30])))
+        thr, slp, md = rng.choice([(5, 5, 60), (2, 9, 4), (10, 1, 3), (5, 5, 3600)])
+        r = vloop.run_scenario(script, threshold=thr, sleep_sec=slp, max_delay=md)
+        res.evaluations += 1
+        case = {"op": "connmgr", "script": script, "close_at": None, "cfg": [thr, slp, md]}
+        why = c17.oracle(script, r, False, thr, slp, md)
+        if why:
+            res.prop_failure(case, why, "manager_pacing")
+        res.nontriv(("pacing", tuple(script), thr, slp, md))
+    res.count("manager_pacing", n)
+
+
 def run(res, tier, seed, widen=1):
     import logging
     logging.disable(logging.CRITICAL)
@@ -189,6 +211,7 @@ def run(res, tier, seed, widen=1):
             res.prop_failure(case, why, "breaker")
         res.nontriv(tuple(ls) + (thr, slp, delay, mx))
     res.count("breaker", len(bcases))
+    _manager_pacing(res, rng, (60 if tier == "quick" else 1500) * widen)
     res.sample({"backoff": cases[len(cases) // 2], "breaker": bcases[0]})
 
 
@@ -198,6 +221,9 @@ def search(res, tier, seed):
 
 def replay(payload, res):
     c = payload["case"]
+    if c["op"] == "connmgr":
+        from props import c17
+        return c17.replay(payload, res)
     if c["op"] == "instances":
         import random
         _instances_replay = impl_instances(c["k"], c["max"], [(i, o) for i, o in c["ops"]])
